@@ -5,7 +5,7 @@ import ast
 from .. import abseval
 from ..abseval import Unsupported
 from ..astutil import u, names_in, walk_no_nested, atoms_of, must_atoms
-from ..model import norm
+from ..model import norm, AnalysisError
 from .models import single_def
 
 RULE = 'R-BUILD'
@@ -400,6 +400,22 @@ def _canonical_asserts(cv):
         return t == 'self.delta'
 
     atoms = set()
+    unknown = []
+
+    def bind_gen(gen):
+        # bindings of one comprehension generator that walks the transition map; returns False when it walks something else
+        it = gen.iter
+        if is_map(it) or (isinstance(it, ast.Call) and isinstance(it.func, ast.Attribute) and it.func.attr == 'keys' and is_map(it.func.value)):
+            bind(gen.target, 'key')
+            return True
+        if isinstance(it, ast.Call) and isinstance(it.func, ast.Attribute) and it.func.attr == 'values' and is_map(it.func.value):
+            bind(gen.target, 'val')
+            return True
+        if isinstance(it, ast.Call) and isinstance(it.func, ast.Attribute) and it.func.attr == 'items' and is_map(it.func.value) and isinstance(gen.target, ast.Tuple) and len(gen.target.elts) == 2:
+            bind(gen.target.elts[0], 'key')
+            bind(gen.target.elts[1], 'val')
+            return True
+        return False
 
     def add_atom(t):
         # split conjunctions
@@ -407,6 +423,64 @@ def _canonical_asserts(cv):
             for v in t.values:
                 add_atom(v)
             return
+        # all(c for .. in delta)  ==  c for every transition
+        if isinstance(t, ast.Call) and isinstance(t.func, ast.Name) and t.func.id == 'all' and len(t.args) == 1 and isinstance(t.args[0], (ast.GeneratorExp, ast.ListComp)) \
+                and len(t.args[0].generators) == 1 and not t.args[0].generators[0].ifs:
+            saved = dict(env)
+            if bind_gen(t.args[0].generators[0]):
+                add_atom(t.args[0].elt)
+                env.clear()
+                env.update(saved)
+                return
+            env.clear()
+            env.update(saved)
+        # {e for .. in delta} <= S  ==  e in S for every transition;  A | B <= S  ==  A <= S and B <= S
+        if isinstance(t, ast.Compare) and len(t.ops) == 1 and isinstance(t.ops[0], ast.LtE):
+            lhs, rhs = t.left, t.comparators[0]
+            parts = []
+
+            def split(x):
+                if isinstance(x, ast.BinOp) and isinstance(x.op, ast.BitOr):
+                    split(x.left)
+                    split(x.right)
+                else:
+                    parts.append(x)
+            split(lhs)
+            handled = 0
+            for x in parts:
+                comp = None
+                if isinstance(x, ast.Call) and isinstance(x.func, ast.Name) and x.func.id in ('set', 'frozenset') and len(x.args) == 1:
+                    comp = x.args[0]
+                elif isinstance(x, ast.SetComp):
+                    comp = x
+                if isinstance(comp, (ast.GeneratorExp, ast.SetComp, ast.ListComp)) and len(comp.generators) == 1 and not comp.generators[0].ifs:
+                    saved = dict(env)
+                    if bind_gen(comp.generators[0]):
+                        add_atom(ast.Compare(left=comp.elt, ops=[ast.In()], comparators=[rhs]))
+                        handled += 1
+                    env.clear()
+                    env.update(saved)
+                elif isinstance(x, ast.Call) and isinstance(x.func, ast.Attribute) and x.func.attr == 'union' and u(x.func.value) in ('set()', 'frozenset()') and len(x.args) == 1 \
+                        and isinstance(x.args[0], ast.Starred) and isinstance(x.args[0].value, (ast.ListComp, ast.GeneratorExp)) and len(x.args[0].value.generators) == 1:
+                    # set().union(*[e for ..]) unites the ELEMENTS of every e (for a string e: its characters)
+                    c2 = x.args[0].value
+                    saved = dict(env)
+                    if bind_gen(c2.generators[0]):
+                        atoms.add('elements_of({}) <= {}'.format(canon_expr(c2.elt), canon_expr(rhs)))
+                        handled += 1
+                    env.clear()
+                    env.update(saved)
+                elif isinstance(comp, ast.Call) and isinstance(comp.func, ast.Attribute) and comp.func.attr == 'values' and is_map(comp.func.value):
+                    atoms.add('val in ' + canon_expr(rhs))
+                    handled += 1
+                elif comp is not None and is_map(comp):
+                    atoms.add('key in ' + canon_expr(rhs))
+                    handled += 1
+            if handled == len(parts) and len(parts) >= 1 and (handled > 1 or not isinstance(lhs, ast.Name)) and handled > 0 and not (len(parts) == 1 and isinstance(parts[0], (ast.Name, ast.Attribute))):
+                return
+            if handled and handled != len(parts):
+                unknown.append(u(t))
+                return
         if isinstance(t, ast.UnaryOp) and isinstance(t.op, ast.Not) and isinstance(t.operand, ast.Compare) and len(t.operand.ops) == 1:
             c = t.operand
             flip = {ast.In: ast.NotIn, ast.NotIn: ast.In, ast.Eq: ast.NotEq, ast.NotEq: ast.Eq}.get(type(c.ops[0]))
@@ -422,6 +496,9 @@ def _canonical_asserts(cv):
                     break
         txt = canon_expr(t)
         node = ast.parse(txt, mode='eval').body
+        if any(isinstance(x, (ast.GeneratorExp, ast.ListComp, ast.SetComp, ast.DictComp, ast.Lambda)) for x in ast.walk(node)):
+            unknown.append(txt)
+            return
         if isinstance(node, ast.Call) and isinstance(node.func, ast.Attribute) and node.func.attr == 'issubset' and len(node.args) == 1:
             txt = '{} <= {}'.format(u(node.func.value), u(node.args[0]))
         elif isinstance(node, ast.Compare) and len(node.ops) == 1:
@@ -479,27 +556,51 @@ def _canonical_asserts(cv):
                 walk(st.body)
                 walk(st.orelse)
     walk(cv.node.body)
-    # `key0`-style names were written as 'key' + index by bind(); unify 'key.0' spellings
-    return atoms
+    return atoms, unknown
 
 
-def check_invariants(ctx, rep):
+def check_invariants(ctx, rep, only=None):
     n = 0
     for spec, wanted in INVARIANTS.items():
+        if only is not None and spec not in only:
+            continue
         cls = ctx.prog.cls(spec)
         cv = cls.methods.get('_check_validity')
         init = cls.methods.get('__init__')
         if cv is None or init is None:
             rep.violates(RULE + '.inv', spec, 'class ' + cls.name, 'the class has no _check_validity')
             continue
-        asserts = _canonical_asserts(cv)
+        asserts, not_understood = _canonical_asserts(cv)
+        known_terms = ('self.', 'key', 'val')
+        foreign = sorted(a for a in asserts if a not in wanted and any(isinstance(x, ast.Name) and not x.id.startswith(('key', 'val')) and x.id != 'self' for x in ast.walk(ast.parse(a, mode='eval'))))
         rep.extra.setdefault('invariant_atoms', {})[cls.name] = sorted(asserts)
         for atom in wanted:
             n += 1
             if atom in asserts:
                 rep.holds(RULE + '.inv', cv, 'invariant ' + atom, 'invariant asserted', nontrivial=False)
+            elif not_understood:
+                rep.undecided(RULE + '.inv', cv, 'invariant ' + atom, 'not found among the asserted atoms, and the assertion(s) {} are outside the canonical forms'.format(not_understood[:2]))
             else:
                 rep.violates(RULE + '.inv', cv, 'invariant ' + atom, 'the class invariant `{}` is no longer asserted by {}._check_validity (asserted, in canonical form: {})'.format(atom, cls.name, '; '.join(sorted(asserts))))
+        # the constructor keeps what it is given: self.X = X (or a plain copy of X) for every component
+        for p0 in init.params:
+            if p0 in ('self', 'check_validity'):
+                continue
+            stores = [st for st in walk_no_nested(init.node) if isinstance(st, ast.Assign) and any(isinstance(t, ast.Attribute) and u(t.value) == 'self' and t.attr == p0 for t in st.targets)]
+            if not stores:
+                continue
+            n += 1
+            v = stores[0].value
+            plain = isinstance(v, ast.Name) and v.id == p0
+            copy_of = (isinstance(v, ast.Call) and len(v.args) == 1 and u(v.args[0]) == p0 and isinstance(v.func, (ast.Name, ast.Attribute)) and u(v.func).split('.')[-1] in ('set', 'dict', 'list', 'frozenset', 'deepcopy', 'copy')) \
+                or (isinstance(v, ast.Call) and isinstance(v.func, ast.Attribute) and v.func.attr == 'copy' and u(v.func.value) == p0)
+            if plain or copy_of:
+                rep.holds(RULE + '.inv', init, stores[0], 'the component {} is stored as given'.format(p0), nontrivial=False)
+            elif any(isinstance(x, (ast.GeneratorExp, ast.ListComp, ast.SetComp, ast.DictComp)) and any(g.ifs for g in x.generators) for x in ast.walk(v)) or \
+                    (isinstance(v, ast.BinOp) and isinstance(v.op, (ast.Sub, ast.BitAnd))):
+                rep.violates(RULE + '.inv', init, stores[0], 'the constructor of {} stores a FILTERED version of its argument {} ({}): the object is not the automaton it was given, e.g. explicitly given transitions are dropped'.format(cls.name, p0, u(v)))
+            else:
+                rep.undecided(RULE + '.inv', init, stores[0], 'the component {} is stored as {}, neither the argument nor a plain copy'.format(p0, u(v)))
         # the constructor runs the check by default
         d = init.defaults.get('check_validity')
         called = [c for c in _self_calls(init, '_check_validity')]
@@ -512,6 +613,8 @@ def check_invariants(ctx, rep):
                 rep.violates(RULE + '.inv', init, called[0], 'the validity check is skipped under an extra condition')
         else:
             rep.violates(RULE + '.inv', init, 'def __init__', 'the constructor does not check validity by default')
+    if only is not None and 'dfa.DFA' not in only:
+        return n
     # DFA._is_total
     f = ctx.prog.func('dfa.DFA._is_total')
     fx = ctx.facts(f)
@@ -561,4 +664,36 @@ def check_declared_vs_empty(ctx, rep):
                     elif a[0] == 'eq' and a[2] == 'None' and a[1] in optional:
                         n += 1
                         rep.holds(RULE + '.optional', f, t if isinstance(t, ast.stmt) else t.test, 'omitted declaration is tested with `is None`')
+    return n
+
+
+def check_value_validators(ctx, rep, rule=RULE + '.sortcheck'):
+    """a keyword that carries a SYMBOL (epsilon, blank, the alphabets) is never validated as a state name and a keyword
+    that carries a STATE (accept, reject) is never validated as a symbol: the two label languages differ ('#', '$', the
+    blank box are symbols but not state names), so the wrong validator rejects what the printers write"""
+    from .state import reachable_functions
+    n = 0
+    base = [c for c in ctx.prog.classes.values() if c.name == 'AutomatonBuilder' and not c.module.name.startswith('template:')]
+    if not base:
+        raise AnalysisError('AutomatonBuilder vanished')
+    getters = {'symbol': ['get_symbol', 'parse_symbol', 'get_symbol_set'], 'state': ['get_state']}
+    forbidden = {'symbol': ('_check_state_label', '_check_state_labels'), 'state': ('_check_symbol', '_check_symbols')}
+    for kind, names in getters.items():
+        for nm in names:
+            m = ctx.prog.find_method(base[0], nm)
+            if m is None:
+                continue
+            n += 1
+            reach = reachable_functions(ctx, [m])
+            bad = [g for g in reach.values() if g.name in forbidden[kind]]
+            # direct self-calls are resolved through the class; also scan the bodies for unresolved self.<validator>() calls
+            for g in list(reach.values()):
+                for c in ast.walk(g.node):
+                    if isinstance(c, ast.Call) and isinstance(c.func, ast.Attribute) and c.func.attr in forbidden[kind] and u(c.func.value) == 'self':
+                        bad.append(g)
+            if bad:
+                rep.violates(rule, m, 'def ' + m.name, 'the getter {} of a {}-valued keyword reaches the validator {} (through {}): a declared {} such as # or the blank box is rejected as an invalid {} although the printers write it'.format(
+                    nm, kind, '/'.join(forbidden[kind]), bad[0].name, kind, 'state label' if kind == 'symbol' else 'symbol'))
+            else:
+                rep.holds(rule, m, 'def ' + m.name, 'the getter {} of a {}-valued keyword never reaches the validator of the other sort'.format(nm, kind), nontrivial=False)
     return n
